@@ -176,8 +176,29 @@ def run_check(fn, pid: str, tier: str, level: str, replay: str | None = None) ->
     except MachineryError as e:
         print(f"MACHINERY-ERROR [{pid}]: {e}", file=sys.stderr, flush=True)
         return 2
-    except Exception:
+    except Exception as e:
         traceback.print_exc()
+        # Who raised?  An exception that was raised INSIDE the package under test (innermost frame under REPO) while the check fed it an
+        # input of the property's quantifier, and that no clause of the check anticipated, means the package did not deliver a value:
+        # that is reported as a violation, not as a failure of the machinery.  AttributeError / TypeError / ImportError are kept as
+        # machinery errors: they are what a drift between the harness and the package's (private) interfaces looks like.
+        tb = traceback.extract_tb(e.__traceback__)
+        inner = tb[-1].filename if tb else ""
+        in_pkg = str(inner).startswith(str(REPO) + os.sep) and not str(inner).startswith(str(VERIF) + os.sep)
+        if in_pkg and not isinstance(e, (AttributeError, TypeError, ImportError, NameError)):
+            try:
+                where = f"{Path(inner).relative_to(REPO)}:{tb[-1].lineno}"
+                called = next((f"{Path(f.filename).name}:{f.lineno}" for f in reversed(tb) if str(f.filename).startswith(str(VERIF))), "?")
+                try:
+                    text = repr(e)
+                except Exception:
+                    text = type(e).__name__
+                ctx.violation(f"the package raised {text[:200]} at {where} while the check exercised it (from {called}); no value was delivered",
+                              {"exception": type(e).__name__, "where": where}, {"clause": "package_raised", "exc": type(e).__name__})
+                ctx.cov["evaluations"] = max(ctx.cov["evaluations"], 1)
+                return ctx.finish()
+            except Exception:
+                traceback.print_exc()
         print(f"MACHINERY-ERROR [{pid}]: unexpected exception in the harness", file=sys.stderr, flush=True)
         return 2
     finally:
